@@ -128,7 +128,11 @@ pub fn programs() -> Vec<Prog> {
     // host structs by kind of member (atomics directly / nested / in arrays / under a runtime array, 64-bit floats,
     // arrays of structs, bool in a workgroup struct): the truth table does not depend on what the members are
     {
-        let kinds: [(&'static str, &'static str, &'static str, bool); 8] = [
+        let kinds: [(&'static str, &'static str, &'static str, bool); 12] = [
+            ("bool-private", "struct KHost { on: bool, level: f32 };\n", "PRIVATE", false),
+            ("bool-workgroup", "struct KHost { mask: vec3<bool>, level: f32 };\n", "WORKGROUP", false),
+            ("bool-nested-private", "struct KInner { flag: bool };\nstruct KHost { inner: KInner, k: vec2<f32> };\n", "PRIVATE", false),
+            ("bool-array-workgroup", "struct KInner { flags: array<bool, 3> };\nstruct KHost { items: array<KInner, 2>, n: u32 };\n", "WORKGROUP", false),
             ("atomic-direct", "struct KHost { hits: atomic<u32>, misses: atomic<i32>, scale: f32 };\n", "var<storage, read_write> k_host: KHost;", false),
             ("atomic-nested", "struct KInner { n: atomic<u32> };\nstruct KHost { head: vec4<f32>, inner: KInner };\n", "var<storage, read_write> k_host: KHost;", false),
             ("atomic-array", "struct KHost { slots: array<atomic<u32>, 4>, tail: u32 };\n", "var<storage, read_write> k_host: KHost;", false),
@@ -139,7 +143,7 @@ pub fn programs() -> Vec<Prog> {
             ("nested-three-deep", "struct KLeaf { x: vec4<f32> };\nstruct KInner { leaf: KLeaf, y: vec4<f32> };\nstruct KHost { inner: KInner, z: vec4<f32> };\n", "var<uniform> k_host: KHost;", false),
         ];
         for (kind, decls, var, rts) in kinds {
-            let binding = if var == "WORKGROUP" { "var<workgroup> k_host: KHost;".to_string() } else { format!("@group(0) @binding(0) {var}") };
+            let binding = if var == "WORKGROUP" { "var<workgroup> k_host: KHost;".to_string() } else if var == "PRIVATE" { "var<private> k_host: KHost;".to_string() } else { format!("@group(0) @binding(0) {var}") };
             let src = format!("{decls}{binding}\nstruct KVertex {{ @location(0) a: vec4<f32>, @location(1) b: vec2<u32> }};\n@vertex fn vs_main(v: KVertex) -> @builtin(position) vec4<f32> {{\n    return v.a;\n}}\n@compute @workgroup_size(2, 3) fn cs_main() {{\n    _ = &k_host;\n}}\n");
             let mut structs = vec![RoleStruct { name: "KHost", host: true, rts }, RoleStruct { name: "KVertex", host: false, rts: false }];
             if decls.contains("struct KInner") {
